@@ -504,7 +504,7 @@ def measured(det, name):
 
 def check_row_order(scn):
     name, variant, seed, n = scn["det"], scn["variant"], scn["seed"], scn["n"]
-    st = C.stream(name, seed, n, vary_rows=False)
+    st = C.stream(name, seed, n, vary_rows=False, blocky=bool(scn.get("blocky")))
     rng = np.random.RandomState(seed + 77)
     st2 = [(b[0].iloc[rng.permutation(len(b[0]))].reset_index(drop=True),) for b in st]
     decisions = scn.get("decisions", True)
